@@ -34,7 +34,9 @@ theorem served_without_contact_is_fresh (cfg : Cfg) (t0 : Int) (req : Req) (tr :
   split at h
   · -- method not understood: the first node is the origin call
     unfold handleUnrecognizedMethod at h
-    cases h; simp [contacted, Step.isOrigin] at hc
+    split at h
+    · cases h; left; rfl
+    · cases h; simp [contacted, Step.isOrigin] at hc
   · cases h with
     | getRefs a h1 =>
       rename_i tr1
